@@ -20,7 +20,7 @@ NT_RULE = ('1-8 formation reactions sharing gas reference species, norm factors 
            'branch; distinct = canonical JSON')
 REQUIRED_ORACLES = ['D1', 'D2', 'D3']
 REQUIRED_CLASSES = ['scan:1D', 'scan:2D', 'var:T', 'var:P', 'var:species_kwargs', 'units:yes', 'units:no',
-                    'stable:changes', 'span:max_before_min', 'span:max_after_min', 'span:with_ts', 'span:network',
+                    'stable:changes', 'norms:int', 'norms:float', 'span:max_before_min', 'span:max_after_min', 'span:with_ts', 'span:network',
                     'grid:1', 'reactions:1']
 REQUIRED_PROBES = ['PhaseDiagram.get_GoRT_1D', 'PhaseDiagram.get_GoRT_2D', 'Reactions.get_E_span',
                    'Network.get_E_span']
@@ -48,6 +48,10 @@ def _gen_diagram(rng):
                                                      for g in rng.sample(GAS, rng.randint(1, 2))]
         rxns.append({'reactants': react, 'products': [[prod, 1]]})
         norms.append(round(rng.uniform(0.1, 10), 3))
+    # normalisation factors are often integers (atoms or sites per cell)
+    norm_kind = rng.choice(['float', 'float', 'int'])
+    if norm_kind == 'int':
+        norms = [rng.choice([1, 2, 3, 4, 6, 9]) for _ in norms]
     def axis(kind, n):
         if kind == 'T':
             return 'T', sorted(round(rng.uniform(300, 3000), 2) for _ in range(n))
@@ -64,7 +68,7 @@ def _gen_diagram(rng):
     if 'P' not in kinds and rng.random() < 0.5:
         fixed['P'] = S.logu(rng, 1e-3, 1e2, 4)
     return {'kind': 'diagram', 'species': species, 'reactions': rxns, 'norms': norms,
-            'norms_as': rng.choice(['list', 'array']),
+            'norms_as': rng.choice(['list', 'array']), 'norm_kind': norm_kind,
             'axes': [[n, v] for n, v in axes], 'fixed': fixed, 'units': rng.choice([None, None] + UNITS)}
 
 
@@ -137,7 +141,7 @@ def _diagram(spec, ctx):
     pdg = PhaseDiagram(reactions=rxns, norm_factors=norms)
     axes, fixed, units = spec['axes'], spec['fixed'], spec['units']
     dim = len(axes)
-    ctx.cls('scan:%dD' % dim, 'units:yes' if units else 'units:no')
+    ctx.cls('scan:%dD' % dim, 'units:yes' if units else 'units:no', 'norms:' + spec.get('norm_kind', 'float'))
     for n, v in axes:
         ctx.cls(_var_class(n))
         if len(v) == 1:
